@@ -60,7 +60,7 @@ CellSeq(S) == IF S = {} THEN <<>>
 Chart == [type |-> typ, desc |-> "", diff |-> "Hard", meter |-> "7", radar |-> "0,0,0,0,0", keys |-> KeysOf(typ),
           nfields |-> 6, cells |-> CellSeq(CellSet), rows |-> rows, widths |-> <<KeysOf(typ)>>, symbols |-> <<"0">>]
 FBpms == [k \in DOMAIN bpms |-> [p |-> bpms[k].p48 * 100, bl |-> bpms[k].bl]]
-File == [off |-> off, bpms |-> FBpms, charts |-> <<Chart>>, junk |-> 0]
+File == [off |-> off, bpms |-> FBpms, charts |-> <<Chart>>, junk |-> 0, stops |-> <<>>]
 
 DenotationTotal == done =>
     LET f == File ch == Chart IN
